@@ -55,4 +55,64 @@ def wf (ws : List Writer) (len : Nat) : Bool :=
   (ws.all fun w => decide (w.cmdPos < len ∧ w.wkcPos + 1 < len ∧ w.cmdPos ≠ w.wkcPos ∧ w.cmdPos ≠ w.wkcPos + 1 ∧ w.cmd < 256)) &&
   (ws.flatMap positions).Nodup
 
+/-! ### what decides the writers: building the group's `SterilePacket`
+
+    def __init__(self):            size = PACKET_HEADER; on_the_fly = []; counters = {}     (per packet)
+    def append_writer(cmd, ...):   start = self.size; self.append(...); self.on_the_fly.append((start, self.size, cmd))
+    def append(cmd, data, ..., counter=1):
+        self.size += DATAGRAM_HEADER + len(data) + DATAGRAM_TAIL;  self.counters[self.size - 2] = counter
+
+`activate` compiles one writer per `on_the_fly` entry, with `self.counters[stop - 2]` as the expected counter. -/
+
+/-- a datagram as it is appended: by `append_writer` or `append`, command, data length, expected working counter -/
+structure Dgram where
+  writer : Bool
+  cmd : Nat
+  len : Nat
+  counter : Nat
+deriving Repr, DecidableEq
+
+structure Pkt where
+  size : Nat
+  onTheFly : List (Nat × Nat × Nat)     -- (start, stop, command)
+  counters : List (Nat × Nat)           -- the dict, in order of assignment (a later assignment to a key wins)
+deriving Repr, DecidableEq
+
+/-- a new `SterilePacket()` -/
+def Pkt.empty : Pkt := ⟨PACKET_HEADER, [], []⟩
+
+def Pkt.add (p : Pkt) (d : Dgram) : Pkt :=
+  { size := p.size + DATAGRAM_HEADER + d.len + DATAGRAM_TAIL,
+    onTheFly := if d.writer then p.onTheFly ++ [(p.size, p.size + DATAGRAM_HEADER + d.len + DATAGRAM_TAIL, d.cmd)] else p.onTheFly,
+    counters := p.counters ++ [(p.size + DATAGRAM_HEADER + d.len + DATAGRAM_TAIL - DATAGRAM_TAIL, d.counter)] }
+
+def buildFrom (p : Pkt) (ds : List Dgram) : Pkt := ds.foldl Pkt.add p
+
+/-- the packet of a group: a new packet, then the datagrams of its own layout -/
+def build (ds : List Dgram) : Pkt := buildFrom Pkt.empty ds
+
+/-- `self.counters[pos]`; `none` = KeyError -/
+def Pkt.counterAt (p : Pkt) (pos : Nat) : Option Nat := p.counters.reverse.lookup pos
+
+def Pkt.writerOf (p : Pkt) (e : Nat × Nat × Nat) : Option Writer :=
+  (p.counterAt (e.2.1 - DATAGRAM_TAIL)).map fun c =>
+    { cmdPos := e.1 + ETHERNET_HEADER, wkcPos := e.2.1 + ETHERNET_HEADER - DATAGRAM_TAIL, cmd := e.2.2, expected := c }
+
+/-- the writers `activate` compiles into the program; `none` = KeyError while generating -/
+def Pkt.writers (p : Pkt) : Option (List Writer) := p.onTheFly.mapM p.writerOf
+
+/-- the positions `sterile` sets to NOP -/
+def Pkt.starts (p : Pkt) : List Nat := p.onTheFly.map (·.1)
+
+/-- the write datagrams of a layout, from the datagram list alone: the datagram that begins at `pos` -/
+def declaredFrom (pos : Nat) : List Dgram → List Writer
+  | [] => []
+  | d :: ds =>
+    (if d.writer then [{ cmdPos := pos + ETHERNET_HEADER,
+                         wkcPos := pos + DATAGRAM_HEADER + d.len + DATAGRAM_TAIL + ETHERNET_HEADER - DATAGRAM_TAIL,
+                         cmd := d.cmd, expected := d.counter : Writer }] else []) ++
+    declaredFrom (pos + DATAGRAM_HEADER + d.len + DATAGRAM_TAIL) ds
+
+def declared (ds : List Dgram) : List Writer := declaredFrom PACKET_HEADER ds
+
 end Ebv.FastGroup
